@@ -1,6 +1,8 @@
 HOOK_COMMITS = ["876062f"]
 
 ENGINES = [
+    dict(name="tracerec", path="harness/src/bin/tracerec", serves_properties=["C15", "C16"],
+         kind_free_text="recording Trace implementation over generated derive shapes (gen/shapes.py) and a table of the provided Collect impls"),
     dict(name="layoutmon", path="harness/src/bin/layoutmon", serves_properties=["C17", "C18", "C19", "C11"],
          kind_free_text="layout grid, builder abandonment enumeration, conversion chains on the tracking allocator (red zones) and destructor log"),
     dict(name="gcmon", path="harness/src/bin/gcmon", serves_properties=["C01", "C02", "C03", "C04", "C05", "C06", "C07", "C08", "C09", "C10", "C11", "C14", "C20"],
@@ -36,6 +38,8 @@ TEXT = {
     "C17": _t("Geometry + byte-pattern + round-trip monitors over a generated layout grid, with the tracking allocator (requested vs released layout, red zones) natively and AddressSanitizer.", _NOTE, "layout grid under tracking allocator with red zones; ASan", engine="layoutmon"),
     "C18": _t("Abandonment-point enumeration for every builder kind with destructor-log and allocator-outstanding-block oracles.", _NOTE, "abandonment-point enumeration under destructor/allocator logs", engine="layoutmon"),
     "C19": _t("Seeded conversion chains judged for identity, survival and single destruction; ZstCache grid; (conjuring probes: compile + run).", _NOTE, "conversion-chain monitor; ZstCache grid", engine="layoutmon"),
+    "C15": _t("Recording implementation of the public Trace trait over a generated corpus of derived types; reported (pointer, strength) multiset and NEEDS_TRACE compared with generator-computed expectations; end-to-end survival through a real arena; derive rejections by compile probes with compiling twins.", _NOTE, "recording tracer over generated shapes + compile probes", engine="tracerec"),
+    "C16": _t("Same recorder over a table of every provided impl x parameter position x element position x size, under several feature sets; survival round per container.", _NOTE, "recording tracer over impl table x feature sets", engine="tracerec"),
 }
 
-NOT_APPLICABLE = {p: "check not built yet in this revision (in progress)" for p in ["C12", "C13", "C15", "C16"]}
+NOT_APPLICABLE = {p: "check not built yet in this revision (in progress)" for p in ["C12", "C13"]}
